@@ -18,7 +18,7 @@ VERIF = "/verif"
 
 
 def sh(cmd, cwd, env=ENV, timeout=3600):
-    return subprocess.run(cmd, cwd=cwd, env=env, capture_output=True, text=True, timeout=timeout)
+    return subprocess.run(cmd, cwd=cwd, env=env, capture_output=True, text=True, errors="replace", timeout=timeout)
 
 
 def suite(cwd):
